@@ -157,6 +157,10 @@ Stats explore(Sys& sys, const Options& opt, const std::set<std::string>& skip) {
             h2.push_back(op);
             std::string rp = replay_str(sys, h2);
             if (skip.count(rp)) continue;  // known crashing transition: terminal
+            if (!vh::disabled_labels().empty()) {
+                std::string lb = sig_label(sys.op_name(op));
+                if (vh::disabled_labels().count(lb) || vh::disabled_labels().count(lb + "+observe")) continue;
+            }
             if (cur_dirty) {
                 vh::at("destroy", replay_str(sys, cur_hist));
                 cur.reset();
